@@ -247,7 +247,22 @@ def sdiv(a, b, signs):
     q = a.divexact(b)
     if q is not None and all(c.denominator == 1 for c in q.t.values()):
         return q
+    # Euclidean division visible in the polynomial: a == q*b + r with q >= 0 and 0 <= r < b under the case's sign assumptions
+    # (mixed-radix positions d0*z1 + d1 with d1 < z1); then the truncating quotient is q
+    if not b.is_const() and len(a.t) <= 40 and sign(b, signs) == POS:
+        for key in (None, _revkey):
+            qr = a.divrem(b, key)
+            if qr is None:
+                continue
+            for q, r in (qr, (qr[0] - 1, qr[1] + b)):
+                if (all(c.denominator == 1 for c in q.t.values()) and all(c.denominator == 1 for c in r.t.values())
+                        and sign(q, signs) in (POS, NONNEG, ZERO) and sign(r, signs) in (POS, NONNEG, ZERO) and sign(b - r, signs) == POS):
+                    return q
     return atom("div", a, b)
+
+
+def _revkey(m):
+    return tuple(sorted(((s, e) for s, e in m), reverse=True))
 
 
 class Evaluator:
